@@ -150,6 +150,33 @@ CHECKS.update({
     technique='Coq proof of separation invariant over a table-defined identity model; table re-measured by id() + behavioural mutation tests', design='§7 C06'),
 })
 
+CHECKS.update({
+ 'C05': dict(
+    text='Machine-checked proof that for every model state satisfying the invariant from_dict(to_dict(g)) succeeds and is deeply equal to g (validated '
+         'form under acyclicity, unvalidated form without), that the result satisfies the invariant of the same class, that serialising it again gives the '
+         'same ordered dictionary, that to_dict is independent of construction order, the Skeleton round trip, and the class conversions (identifiers, '
+         'types, user metadata and every time-respecting edge preserved; non-directed edges flipped exactly when against time; directed ones refused). '
+         'Tied to the code by comparing to_dict as an ORDERED tree through real JSON text, from_dict (full observation hash + error class) incl. three '
+         'hostile variants of every dictionary, copy, skeleton and conversions, and by evaluating the property itself on the implementation.',
+    note=TB + 'json.dumps/loads is the identity on the modelled JSON type (validated by going through real JSON text). TS theorems assume TagsStable (key-sorted metadata), which the harness canonicalisation provides.',
+    technique='Coq proof of round trip by induction over the sorted node/edge lists; ordered-tree correspondence', design='§7 C05'),
+ 'C08': dict(
+    text='Machine-checked proofs that A[i,j] = 1 exactly for an edge i->j or i--j under the sorted node order, that any other edge type is refused by '
+         'to_numpy / to_networkx / GML (never dropped or retyped), that malformed matrices are refused for ALL inputs, and the matrix and networkx round '
+         'trips (validated and unvalidated, plain and own class; cyclic graphs refused under validation) by induction over the i<j construction loop. Tied to '
+         'the code on graph states from histories, on every binary matrix up to 3x3 plus sampled larger and malformed ones through from_adjacency_matrix, '
+         'and by evaluating the round-trip / refusal clauses and the lagged-matrix round trip on the implementation.',
+    note=TB + 'GML text is exercised (networkx), not modelled; to_numpy_by_lag / from_adjacency_matrices are checked by the implementation-side predicate and by C14 adjacency_matrices.',
+    technique='Coq proofs of entry characterisation, refusals and round trips; correspondence on states and matrices', design='§7 C08'),
+ 'C09': dict(
+    text='Machine-checked proofs that the skeleton views of the CURRENT model state have exactly the graph nodes, exactly one undirected edge per stored '
+         'edge, a symmetric adjacency matrix with 1 exactly for adjacent pairs, orientation-blind existence / get_edge / neighbours, and that rebuilding '
+         'from the matrix or networkx form gives the same skeleton. The Skeleton object is obtained BEFORE the history; after every mutation every public '
+         'member is compared with the graph, all views are compared with the Coq model, and the skeleton is rebuilt from dict / matrix / networkx / GML.',
+    note=TB + 'Rebuild from its own dictionary: compared on every run, general proof not closed (sk_rebuild_dict_statement).',
+    technique='Coq proofs about skeleton views; liveness by observing a skeleton taken before the history', design='§7 C09'),
+})
+
 
 def main():
     checks = []
